@@ -7,7 +7,9 @@ modelled builtin is run in-process on the same inputs and the model is evaluated
 them inside Coq (vm_compute); results must be equal (or equal as sorted multisets
 where no order is defined: cartesian product).  The oracle states ~40 laws directly on
 the implementation with itertools/builtins, independently of the model, on integer
-lists, nested lists, ragged matrices, pairs of lists and strings."""
+lists, nested lists, ragged matrices, pairs of lists and strings; all of them also on
+arguments that were looked at before the call and with the call repeated on the same
+objects (observed family, see OBS_KINDS / CALL_MODES)."""
 from __future__ import annotations
 
 import collections
@@ -86,12 +88,145 @@ def depth_of(want):
     return 0
 
 
-def _call(f, *args):
+def _call(f, *args, mode="once"):
+    """mode (see CALL_MODES): "once"; "second" = the answer of a second call on the very
+    same argument objects after a first call whose answer was read completely;
+    "second_pending" = the same with the first answer still unread; "first_late" = the
+    first answer, read only after a second call's answer was read completely."""
     from vyxal.context import Context
     try:
-        return canon(f(*args, Context()))
+        if mode == "once":
+            return canon(f(*args, Context()))
+        first = f(*args, Context())
+        if mode == "second":
+            canon(first)
+        again = canon(f(*args, Context()))
+        return canon(first) if mode == "first_late" else again
     except Exception as e:  # noqa: BLE001
         return Exc(type(e).__name__)
+
+
+# ---- arguments that were LOOKED AT before the call, calls that are repeated ------------
+# Input family added after seeded defect C16e-1 (a builtin that pulled from the LazyList's
+# raw source instead of iterating it: right on a fresh LazyList, wrong once part of it is
+# cached).  Every LazyList the other families hand to a builtin is fresh: nothing has been
+# generated yet, so "the list the argument denotes" and "what its source still holds"
+# coincide.  A program, however, hands over values it has already inspected (h, L, i, a
+# loop that stopped early, a print) and uses a value twice.  The laws are about the list a
+# value DENOTES, so they must hold unchanged for an argument in any observed state and for
+# every repeated call.  The family is not tied to a builtin: every observation below is
+# applied before every builtin of every group (one list, queries, wrap, pairs, nested,
+# matrices, pipelines), to every outermost LazyList of the argument ("walk"/"force" also to
+# the LazyLists inside), and every call mode repeats every builtin; the expected answers are
+# the ones of the fresh argument.  An observation only reads (no __setitem__, no element
+# that is specified to change its argument).
+OBS_PLAIN = ("head", "truth", "length", "iterate_all", "listify", "element_head", "element_length", "force")
+OBS_K = ("index", "has_index", "iterate", "next", "slice", "walk")       # take a position / count k
+# "builtin": the observation is ANOTHER builtin of this check, called on the same object and
+# its answer read completely (a sequence of two elements on one value: a builtin that
+# rearranges or consumes its argument spoils the next one); k = index into PRIOR_BUILTINS
+# (the linear-size ones: the answer of the first call must stay small on pipeline values)
+PRIOR_BUILTINS = ("sort", "reverse", "uniquify", "flatten", "sum", "max", "min", "cumsum", "uninterleave", "prefixes", "suffixes",
+                  "group", "counts", "grade_up", "head", "tail", "head_remove", "tail_remove", "length", "wrap", "contains", "transpose")
+OBS_KINDS = OBS_PLAIN + OBS_K + ("builtin",)
+
+
+def _prior(name):
+    from vyxal import elements as E, helpers as H
+    return {"sort": E.vy_sort, "reverse": E.reverse, "uniquify": E.uniquify, "flatten": E.deep_flatten, "sum": E.vy_sum,
+            "max": E.monadic_maximum, "min": E.monadic_minimum, "cumsum": E.cumulative_sum, "uninterleave": E.uninterleave,
+            "prefixes": H.prefixes, "suffixes": H.suffixes, "group": E.group_consecutive, "counts": E.counts, "grade_up": E.grade_up,
+            "head": E.head, "tail": E.tail, "head_remove": E.head_remove, "tail_remove": E.tail_remove, "length": E.length,
+            "wrap": lambda v, ctx: E.wrap(v, 2, ctx), "contains": lambda v, ctx: E.contains(v, 1, ctx),
+            "transpose": lambda v, ctx: H.transpose(v, None, ctx)}[name]
+CALL_MODES = ("once", "second", "second_pending", "first_late")
+# (observation kind or call mode) -> reason: left out of the committed oracle because the
+# UNCHANGED tree differs there (reported to the integrator as candidate defects)
+PENDING_FINDINGS = {}
+
+
+def _outer_lazies(v):
+    from vyxal.LazyList import LazyList
+    if isinstance(v, LazyList):
+        return [v]
+    if isinstance(v, list):
+        return [w for y in v for w in _outer_lazies(y)]
+    return []
+
+
+def _walk(x, k):
+    """Iterate every list level to position k only (the rest of each LazyList stays ungenerated)."""
+    from vyxal.LazyList import LazyList
+    if isinstance(x, (list, LazyList)):
+        it = iter(x)
+        for _ in range(k):
+            try:
+                y = next(it)
+            except StopIteration:
+                break
+            _walk(y, k)
+
+
+def observe(v, ob):
+    """Look at the value the way a program can before passing it on; returns the same object."""
+    if ob is None:
+        return v
+    kind, k = ob
+    from vyxal import elements as E
+    from vyxal.context import Context
+    if kind == "walk":
+        _walk(v, k)
+    elif kind == "force":
+        canon(v)
+    elif kind == "builtin":
+        try:
+            canon(_prior(PRIOR_BUILTINS[k])(v, Context()))
+        except Exception:  # noqa: BLE001  (not the call under test; e.g. sum of a ragged nest)
+            pass
+    for z_ in _outer_lazies(v) if kind not in ("walk", "force", "builtin") else ():
+        if kind == "head":
+            z_[0]
+        elif kind == "truth":
+            bool(z_)
+        elif kind == "length":
+            len(z_)
+        elif kind == "iterate_all":
+            for _ in z_:
+                pass
+        elif kind == "listify":
+            z_.listify()
+        elif kind == "element_head":
+            E.head(z_, Context())
+        elif kind == "element_length":
+            E.length(z_, Context())
+        elif kind == "index":
+            z_[k]
+        elif kind == "has_index":
+            z_.has_ind(k)
+        elif kind == "iterate":
+            it = iter(z_)
+            for _ in range(k):
+                if next(it, it) is it:
+                    break
+        elif kind == "next":
+            for _ in range(k):
+                try:
+                    next(z_)
+                except StopIteration:
+                    break
+        elif kind == "slice":
+            z_[:k]
+        else:
+            raise ValueError(kind)
+    return v
+
+
+def obs_of(obs, i=0):
+    return obs["observe"][i] if obs else None
+
+
+def mode_of(obs):
+    return obs["call"] if obs else "once"
 
 
 def build(spec, pat=None):
@@ -113,15 +248,16 @@ UNARY = ["sort", "reverse", "reverse2", "uniquify", "flatten", "sum", "product",
          "tail_remove", "length"]
 
 
-def impl_unary(item):
-    """All one-argument builtins on one list (or string) + queries + wrap."""
+def impl_unary(item, obs=None):
+    """All one-argument builtins on one list (or string) + queries + wrap; obs: the state the
+    argument is brought into before every call and the call mode (observed family)."""
     l, xs, ks, pat = item
     from vyxal import elements as E, helpers as H
-    c = _call
+    c = functools.partial(_call, mode=mode_of(obs))
     n = len(l)
 
     def mk():
-        return build(l, pat)
+        return observe(build(l, pat), obs_of(obs))
     r = {}
     r["sort"] = c(E.vy_sort, mk())
     r["reverse"] = c(E.reverse, mk())
@@ -159,33 +295,51 @@ def impl_unary(item):
     return r
 
 
-def impl_binary(item):
+def impl_binary(item, obs=None):
     a, b, pa, pb = item
     from vyxal import elements as E
-    c = _call
+    c = functools.partial(_call, mode=mode_of(obs))
+
+    def A():
+        return observe(build(a, pa), obs_of(obs, 0))
+
+    def B():
+        return observe(build(b, pb), obs_of(obs, 1))
+
+    def AB():
+        """both arguments; obs["same_object"]: ONE object passed in both places (a == b then): two
+        readers of one LazyList advance each other's cache"""
+        x = A()
+        return (x, x) if obs and obs.get("same_object") else (x, B())
     r = {}
-    r["zip"] = c(E.vy_zip, build(a, pa), build(b, pb))
-    r["interleave"] = c(E.interleave, build(a, pa), build(b, pb))
-    r["unzip"] = c(lambda x, y, ctx: E.uninterleave(E.interleave(x, y, ctx), ctx), build(a, pa), build(b, pb))
-    r["cart"] = c(E.cartesian_product, build(a, pa), build(b, pb))
+    r["zip"] = c(E.vy_zip, *AB())
+    r["interleave"] = c(E.interleave, *AB())
+    r["unzip"] = c(lambda x, y, ctx: E.uninterleave(E.interleave(x, y, ctx), ctx), *AB())
+    r["cart"] = c(E.cartesian_product, *AB())
     return r
 
 
-def impl_tree(item):
+def impl_tree(item, obs=None):
     t, pat = item
     from vyxal import elements as E
-    c = _call
-    return {"flatten": c(E.deep_flatten, build(t, pat)), "max": c(E.monadic_maximum, build(t, pat)),
-            "min": c(E.monadic_minimum, build(t, pat))}
+    c = functools.partial(_call, mode=mode_of(obs))
+
+    def mk():
+        return observe(build(t, pat), obs_of(obs))
+    return {"flatten": c(E.deep_flatten, mk()), "max": c(E.monadic_maximum, mk()), "min": c(E.monadic_minimum, mk())}
 
 
-def impl_matrix(item):
+def impl_matrix(item, obs=None):
     m, pat = item
     from vyxal import helpers as H
+    c = functools.partial(_call, mode=mode_of(obs))
+
+    def mk():
+        return observe(build(m, pat), obs_of(obs))
 
     def tr(v, ctx):
         return H.transpose(v, None, ctx)
-    return {"transpose": _call(tr, build(m, pat)), "transpose2": _call(lambda v, ctx: tr(tr(v, ctx), ctx), build(m, pat))}
+    return {"transpose": c(tr, mk()), "transpose2": c(lambda v, ctx: tr(tr(v, ctx), ctx), mk())}
 
 
 # ---- pipelines: nested values PRODUCED by builtins, fed to the builtins under test ----
@@ -259,7 +413,7 @@ def _run_chain(start, pat, ops):
     return v, applied
 
 
-def impl_chain(item):
+def impl_chain(item, obs=None):
     start, pat, ops = item
     from vyxal import elements as E
     inter, applied = _run_chain(start, pat, ops)
@@ -270,8 +424,28 @@ def impl_chain(item):
            "reverse": E.reverse, "head": E.head, "tail": E.tail, "head_remove": E.head_remove, "tail_remove": E.tail_remove}
     r = {"intermediate": c, "applied": applied}
     for name in CONSUMERS:
-        r[name] = _call(fns[name], _run_chain(start, pat, ops)[0])
+        r[name] = _call(fns[name], observe(_run_chain(start, pat, ops)[0], obs_of(obs)), mode=mode_of(obs))
     return r
+
+
+def impl_unary_obs(item):
+    return impl_unary(*item)
+
+
+def impl_binary_obs(item):
+    return impl_binary(*item)
+
+
+def impl_tree_obs(item):
+    return impl_tree(*item)
+
+
+def impl_matrix_obs(item):
+    return impl_matrix(*item)
+
+
+def impl_chain_obs(item):
+    return impl_chain(*item)
 
 
 # ----------------------------------------------------------------------------
@@ -508,6 +682,170 @@ def chain_items(env):
     return out
 
 
+# ---- the observed family (see OBS_KINDS / CALL_MODES above) -----------------------------
+# an observed item is (item of the corresponding fresh family, obs) with
+# obs = {"observe": [(kind, k) or None per list argument], "call": mode}
+
+def _allowed(kind_or_mode):
+    return kind_or_mode not in PENDING_FINDINGS
+
+
+def all_observations(n):
+    """Every observation kind; the positional ones with EVERY k in 0..n+1 (nothing, a proper
+    prefix, everything, beyond the end)."""
+    return ([(kind, 0) for kind in OBS_PLAIN if _allowed(kind)] + [(kind, k) for kind in OBS_K if _allowed(kind) for k in range(n + 2)]
+            + [("builtin", k) for k in range(len(PRIOR_BUILTINS)) if _allowed("builtin")])
+
+
+def _k_for(rng, kind, n):
+    return rng.randint(0, n + 1) if kind in OBS_K else rng.randrange(len(PRIOR_BUILTINS)) if kind == "builtin" else 0
+
+
+def random_observation(rng, n):
+    kinds = [k for k in OBS_KINDS if _allowed(k)]
+    kind = "builtin" if "builtin" in kinds and rng.random() < 0.3 else rng.choice(kinds)
+    return (kind, _k_for(rng, kind, n))
+
+
+def one_of_each_observation(rng, n):
+    return [(kind, _k_for(rng, kind, n)) for kind in OBS_KINDS if _allowed(kind)] + [("builtin", _k_for(rng, "builtin", n)) for _ in range(2) if _allowed("builtin")]
+
+
+REPEATS = tuple(m for m in CALL_MODES if m != "once")
+
+
+def specs_for(observations, nargs=1, rng=None):
+    """Each observation on each argument alone (and on all at once) with a single call; each
+    repeated-call mode on fresh arguments; with rng also one observation + repeat combination."""
+    out = []
+    for ob in observations:
+        sides = [[ob if i == j else None for i in range(nargs)] for j in range(nargs)] + ([[ob] * nargs] if nargs > 1 else [])
+        out += [{"observe": side, "call": "once"} for side in sides]
+    out += [{"observe": [None] * nargs, "call": m} for m in REPEATS if _allowed(m)]
+    if rng is not None and observations:
+        out.append({"observe": [rng.choice(observations) for _ in range(nargs)], "call": rng.choice([m for m in REPEATS if _allowed(m)] or ["once"])})
+    return out
+
+
+def random_spec(rng, lengths, p_once=0.5):
+    modes = [m for m in REPEATS if _allowed(m)]
+    mode = "once" if rng.random() < p_once or not modes else rng.choice(modes)
+    obs = [random_observation(rng, n) if (mode == "once" or rng.random() < 0.6) else None for n in lengths]
+    if mode == "once" and len(obs) > 1 and rng.random() < 0.5:
+        obs[rng.randrange(len(obs))] = None
+    return {"observe": obs, "call": mode}
+
+
+def lazy_somewhere(spec, pat):
+    return "L[" in N.describe(spec, pat)
+
+
+def observed_items(env):
+    rng = env.rng
+    out = {}
+    # -- one list: dense sweep (distinct items and duplicates, handed over as a LazyList) + random
+    uo = []
+    for n in range(env.budget(5, 7)):
+        for base in ([i + 1 for i in range(n)], [(2 * i) % 3 - 1 for i in range(n)]):
+            item = (base, queries_for(base), ks_for(n), "l")
+            uo += [(item, sp) for sp in specs_for(all_observations(n), 1, rng)]
+            if n:       # the plain list: every other builtin first, every repeated call
+                uo += [(item[:3] + (None,), sp) for sp in specs_for([("builtin", k) for k in range(len(PRIOR_BUILTINS))], 1)]
+    dense_u = len(uo)
+    for _ in range(env.budget(250, 2000)):
+        l = random_list(rng, 7) if rng.random() < 0.8 else extreme_list(rng, 6)
+        lazy = rng.random() < 0.9
+        # a plain list has no hidden state: only another builtin before / repeated calls say something about it
+        sp = random_spec(rng, [len(l)], 0.5 if lazy else 0.0)
+        if not lazy and rng.random() < 0.6:
+            sp = {"observe": [("builtin", _k_for(rng, "builtin", 0))], "call": "once"}
+        uo.append(((l, queries_for(l), ks_for(len(l)), "l" if lazy else None), sp))
+    out["unary"] = uo
+    so = []
+    for _ in range(env.budget(40, 300)):
+        s = random_string(rng, 6)
+        xs = list(dict.fromkeys(s))[:3] + ["Q"]
+        ks = sorted({1, 2, 3, len(s), len(s) + 1} & set(range(1, len(s) + 2)))
+        so.append(((s, xs, ks, None), random_spec(rng, [len(s)], 0.0)))
+    out["string"] = so
+    # -- pairs
+    bo = []
+    top = env.budget(3, 4)
+    for na, nb in itertools.product(range(top), repeat=2):
+        a, b = [i + 1 for i in range(na)], [-(i + 1) for i in range(nb)]
+        obs = all_observations(max(na, nb)) if env.thorough else one_of_each_observation(rng, max(na, nb))
+        bo += [((a, b, "l", "l"), sp) for sp in specs_for(obs, 2, rng)]
+    dense_b = len(bo)
+    for _ in range(env.budget(250, 1500)):
+        a = random_list(rng, 6) if rng.random() < 0.8 else extreme_list(rng, 5)
+        b = [rng.randint(-5, 5) for _ in a] if rng.random() < 0.3 else random_list(rng, 6)
+        pa, pb = rng.choice(("l", "l", None)), rng.choice(("l", "l", None))
+        bo.append(((a, b, pa, pb), random_spec(rng, [len(a), len(b)], 0.5 if "l" in (pa, pb) else 0.0)))
+    # one object in both argument places (then a = b), fresh / observed / called repeatedly
+    if _allowed("same_object"):
+        for n in range(top + 1):
+            a = [i + 1 for i in range(n)]
+            for sp in [{"observe": [None], "call": "once"}] + specs_for(one_of_each_observation(rng, n), 1, rng):
+                bo.append(((a, a, "l", "l"), dict(sp, same_object=True)))
+        for _ in range(env.budget(60, 400)):
+            a = random_list(rng, 6)
+            pa = rng.choice(("l", "l", None))
+            bo.append(((a, a, pa, pa), dict(random_spec(rng, [len(a)], 0.6), same_object=True)))
+    out["binary"] = bo
+    # -- nested lists: every small shape in every representation that has a LazyList somewhere
+    to = []
+    vals = (3, -1, 2, 0, -2, 1, 3)
+    for n in range(env.budget(4, 5) + 1):
+        for f in forests(n):
+            t = label(f, vals)
+            pats = [p for p in N.mixed_variants(t, rng, extra_random=1) if lazy_somewhere(t, p)]
+            if not env.thorough and len(pats) > 2:
+                pats = rng.sample(pats, 2)
+            for p in pats:
+                to += [((t, p), sp) for sp in specs_for(one_of_each_observation(rng, len(t)), 1, rng)]
+    dense_t = len(to)
+    for _ in range(env.budget(300, 2500)):
+        t = random_tree(rng) if rng.random() < 0.5 else N.nested_list(rng, 4, 4, lambda: pick_leaf(rng))
+        pats = [p for p in N.mixed_variants(t, rng, extra_random=2) if lazy_somewhere(t, p)]
+        to.append(((t, rng.choice(pats) if pats else "p"), random_spec(rng, [len(t)], 0.5 if pats else 0.0)))
+    out["tree"] = to
+    # -- matrices
+    mo = []
+    shapes = [s for n in range(4) for s in itertools.product(range(3), repeat=n)]
+    for s in shapes:
+        c = itertools.count(1)
+        m = [[next(c) * (-1) ** j for j in range(k)] for k in s]
+        p = rng.choice(("l", "lp", "pl", rng.randrange(1, 2 ** 30)))
+        mo += [((m, p), sp) for sp in specs_for(one_of_each_observation(rng, len(m)), 1, rng)]
+    dense_m = len(mo)
+    for _ in range(env.budget(150, 1200)):
+        if rng.random() < 0.5:
+            r, c = rng.randint(1, 5), rng.randint(1, 5)
+            m = [[pick_leaf(rng, 0.1) for _ in range(c)] for _ in range(r)]
+        else:
+            m = [[pick_leaf(rng, 0.1) for _ in range(rng.randint(0, 5))] for _ in range(rng.randint(0, 5))]
+        mo.append(((m, rng.choice(("l", "lp", "pl", "p", rng.randrange(1, 2 ** 30)))), random_spec(rng, [len(m)])))
+    out["matrix"] = mo
+    return out, {"unary": dense_u, "binary": dense_b, "tree": dense_t, "matrix": dense_m}
+
+
+def observed_chains(env, chains):
+    """Pipelines: the value produced by the producers is observed before each consumer /
+    each consumer is called repeatedly on it."""
+    rng = env.rng
+    picked = rng.sample(chains, min(len(chains), env.budget(600, 5000)))
+    return [(c, random_spec(rng, [3])) for c in picked]
+
+
+def with_obs(inp, obs):
+    if obs is None:
+        return inp
+    out = {"argument": inp, "observed_before_the_call": [list(o) if o else None for o in obs["observe"]], "call": obs["call"]}
+    if obs.get("same_object"):
+        out["a_and_b_are_one_object"] = True
+    return out
+
+
 # ----------------------------------------------------------------------------
 # the oracle: laws stated with itertools/builtins, independent of the model
 # ----------------------------------------------------------------------------
@@ -543,12 +881,14 @@ class Oracle:
             self.fail({"builtin": builtin, "input": inp}, f"{builtin}: {law}: implementation gives {got!r}"[:600], cls or f"{builtin}:{law}")
 
     # -- one list or string --------------------------------------------------
-    def unary(self, item, r):
+    def unary(self, item, r, obs=None):
+        """obs: the argument was observed / the call repeated (observed family): the laws are
+        about the list the argument denotes, so the expected answers are the same."""
         l, xs, ks, pat = item
         is_str = isinstance(l, str)
         s = list(l) if is_str else N.frac(l)      # the sequence of items, exact numbers
         n = len(s)
-        inp = shown(l, pat)
+        inp = with_obs(shown(l, pat), obs)
         ck = lambda b, law, got, want, cls=None: self.check(b, law, inp, got, want, cls)  # noqa: E731
         ck("sort", "sorted()", r["sort"], sorted(s))
         if not isinstance(r["sort"], Exc):
@@ -645,10 +985,10 @@ class Oracle:
             else:
                 self.check("wrap", "k = 0: no chunk", q, w, [])
 
-    def binary(self, item, r):
+    def binary(self, item, r, obs=None):
         a, b, pa, pb = item
         sa, sb = (list(a), list(b)) if isinstance(a, str) else (N.frac(a), N.frac(b))
-        inp = {"a": shown(a, pa), "b": shown(b, pb)}
+        inp = with_obs({"a": shown(a, pa), "b": shown(b, pb)}, obs)
         self.check("zip", "zip_longest(fill 0)", inp, r["zip"], [list(p) for p in itertools.zip_longest(sa, sb, fillvalue=0)])
         sent = object()
         self.check("interleave", "alternate, rest appended", inp, r["interleave"],
@@ -663,17 +1003,17 @@ class Oracle:
             self.holds("cart", "every pair exactly once", inp, sorted(g) == want, r["cart"])
             self.holds("cart", "|a|*|b| pairs", inp, len(g) == len(sa) * len(sb), len(g))
 
-    def tree(self, item, r):
+    def tree(self, item, r, obs=None):
         t, pat = item
-        inp = shown(t, pat)
+        inp = with_obs(shown(t, pat), obs)
         lv = leaves(N.frac(t))
         self.check("flatten", "leaves left to right", inp, r["flatten"], lv)
         self.check("max", "max of the leaves", inp, r["max"], max(lv) if lv else [])
         self.check("min", "min of the leaves", inp, r["min"], min(lv) if lv else [])
 
-    def matrix(self, item, r):
+    def matrix(self, item, r, obs=None):
         m, pat = item
-        inp = shown(m, pat)
+        inp = with_obs(shown(m, pat), obs)
         m = N.frac(m)
         w = max([len(x) for x in m], default=0)
         self.check("transpose", "column j = j-th items of the rows that have one", inp, r["transpose"],
@@ -682,14 +1022,14 @@ class Oracle:
             self.check("transpose", "rectangular: zip(*rows)", inp, r["transpose"], [list(c) for c in zip(*m)])
             self.check("transpose", "rectangular: involution", inp, r["transpose2"], m)
 
-    def chain(self, item, r):
+    def chain(self, item, r, obs=None):
         """Consumers on a nested value produced by other builtins (LazyLists inside plain
         lists inside LazyLists ...), relative to that value forced."""
         if r.get("skipped"):
             return
         start, pat, ops = item
         c = r["intermediate"]
-        inp = {"start": shown(start, pat), "pipeline": [[op, par] for op, par in ops], "applied": r["applied"], "value": N.unfrac(c)}
+        inp = with_obs({"start": shown(start, pat), "pipeline": [[op, par] for op, par in ops], "applied": r["applied"], "value": N.unfrac(c)}, obs)
         if not isinstance(c, list):
             return
         lv = leaves(c)
@@ -991,6 +1331,9 @@ def run(env, with_model=True):
                 "(plain holding lazy holding plain ..., depth <= 4, plus per-node random mixes); pipelines of 1-3 producers (transpose zip wrap prefixes suffixes "
                 "sublists uninterleave reverse group cartesian-product interleave powerset cumsum ...) build nested values that are fed to flatten/max/min/length/"
                 "reverse/head/tail/head-remove/tail-remove, laws stated relative to the forced intermediate. "
+                "Observed family: all of these builtins again on arguments whose LazyLists were looked at before the call (head, truth, length, index k, has-index k, "
+                "iterated to k / fully, raw next k times, slice, listify, nested walk to k, forced, another builtin of the check applied first) and called two times on the same argument objects "
+                "(first answer read / unread / read late); expected answers are those of the denoted list. "
                 "Non-trivial = non-empty input; distinct by (family, canonical input, representation).")
     V.import_repo()
     import vyxal.elements  # noqa: F401  (imported before forking)
@@ -1009,6 +1352,13 @@ def run(env, with_model=True):
     TR = evaluate(env, impl_tree, T, "flatten/max/min")
     MR = evaluate(env, impl_matrix, M, "transpose")
     CR = evaluate(env, impl_chain, C, "pipeline")
+    # the observed family: oracle only (the model has no notion of an argument's state; the
+    # expected answers are those of the list the argument denotes)
+    OB, ob_dense = observed_items(env)
+    OB["chain"] = observed_chains(env, C)
+    OFN = {"unary": impl_unary_obs, "string": impl_unary_obs, "binary": impl_binary_obs, "tree": impl_tree_obs,
+           "matrix": impl_matrix_obs, "chain": impl_chain_obs}
+    OBR = {g: evaluate(env, OFN[g], OB[g], f"{g} builtins, observed argument / repeated call") for g in OB}
 
     def live(items, res):
         keep = [(i, r) for i, r in zip(items, res) if r is not None]
@@ -1036,11 +1386,19 @@ def run(env, with_model=True):
         o.matrix(m, r)
     for c, r in zip(C, CR):
         o.chain(c, r)
+    before = sum(o.n.values())
+    OLAW = {"unary": o.unary, "string": o.unary, "binary": o.binary, "tree": o.tree, "matrix": o.matrix, "chain": o.chain}
+    for g in OB:
+        OB[g], OBR[g] = live(OB[g], OBR[g])
+        for (it, obs), r in zip(OB[g], OBR[g]):
+            OLAW[g](it, r, obs=obs)
+    observed_evaluations = sum(o.n.values()) - before
     stats = correspondence(env, U, UR, B, BR, T, TR, M, MR) if with_model else {}
 
     keys = ([f"u:{it[0]}:{it[3]}" for it in U if it[0]] + [f"s:{it[0]}" for it in S if it[0]] + [f"b:{a}|{b}|{pa}{pb}" for a, b, pa, pb in B if a or b]
             + [f"sb:{a}|{b}" for a, b, _, _ in SB if a or b] + [f"t:{t}:{pat}" for t, pat in T if t] + [f"m:{m}:{pat}" for m, pat in M if m]
-            + [f"c:{c}" for c, r in zip(C, CR) if not r.get("skipped")])
+            + [f"c:{c}" for c, r in zip(C, CR) if not r.get("skipped")]
+            + [f"o:{g}:{it}:{obs}" for g in OB for (it, obs), r in zip(OB[g], OBR[g]) if it[0] and not r.get("skipped")])
     env.count(sum(o.n.values()) + sum(stats.values()), keys)
     env.note("oracle_law_evaluations_per_builtin", dict(sorted(o.n.items())))
     env.note("oracle_failures_per_law", dict(sorted(o.reported.items())))
@@ -1062,6 +1420,17 @@ def run(env, with_model=True):
         "pipelines": {"chains": len(C), "skipped_too_large": sum(1 for r in CR if r.get("skipped")),
                       "producer_steps_applied": dict(sorted(collections.Counter(op for r in CR for op in r.get("applied", [])).items())),
                       "intermediate_depth_histogram": dict(sorted(collections.Counter(depth_of(r["intermediate"]) for r in CR if not r.get("skipped")).items()))},
+        "observed_arguments_and_repeated_calls": {
+            "what": "every builtin of every group on arguments whose LazyLists were looked at before the call, and called repeatedly on the same objects; "
+                    "expected answers = those of the denoted list",
+            "observations": {"without_position": list(OBS_PLAIN), "with_position_k_in_0..n+1": list(OBS_K), "another_builtin_first": list(PRIOR_BUILTINS)},
+            "call_modes": list(CALL_MODES), "pairs_with_one_object_in_both_places": sum(1 for _, sp in OB["binary"] if sp.get("same_object")), "left_out_pending_findings": PENDING_FINDINGS,
+            "inputs_per_group": {g: len(OB[g]) for g in OB}, "of_which_dense_sweep": ob_dense,
+            "dense_sweep": "lists [1..n] and a list with duplicates, n < %d, every observation with every k, every call mode; pairs up to length %d; "
+                           "nested shapes up to %d nodes and ragged matrices up to 3x2, one observation of each kind each" % (env.budget(5, 7), env.budget(3, 4) - 1, env.budget(4, 5)),
+            "by_observation": dict(sorted(collections.Counter(ob[0] if ob else "none" for g in OB for _, sp in OB[g] for ob in sp["observe"]).items())),
+            "by_call_mode": dict(sorted(collections.Counter(sp["call"] for g in OB for _, sp in OB[g]).items())),
+            "law_evaluations": observed_evaluations},
         "permutations_only_up_to_length": PERM_CAP, "powerset_only_up_to_length": POWER_CAP,
         "count/contains/find_queries_per_list": "first 4 distinct items + one absent value", "wrap_k": "0,1,2,3,n-1,n,n+1",
     })
@@ -1074,6 +1443,8 @@ def run(env, with_model=True):
     env.sample(J({"rows": shown(*M[-1]), "transpose": MR[-1]["transpose"]}))
     env.sample(J({"pipeline": {"start": shown(C[0][0], C[0][1]), "ops": C[0][2]}, "value": CR[0].get("intermediate"), "flatten": CR[0].get("flatten")}))
     env.sample({"string": S[-1][0], "sublists": repr(SR[-1]["sublists"])[:120]})
+    env.sample(J({"observed": with_obs(shown(OB["unary"][-1][0][0], OB["unary"][-1][0][3]), OB["unary"][-1][1]), "powerset": OBR["unary"][-1]["powerset"],
+                  "sort": OBR["unary"][-1]["sort"]}))
     env.assume("the Gallina definitions of Model/ListOps.v equal the Python builtins on integer lists (checked by the correspondence on the listed inputs, not proved)")
     env.assume("items of the model are integers (Z): Python int / sympy Integer arithmetic and comparison are exact; non-integer rationals, strings and the representation of nested inputs (list / LazyList) are covered by the oracle only, which compares exactly (int / Fraction)")
     env.assume("LazyList results are forced completely before comparison (laziness itself is property C13/C14)")
